@@ -480,13 +480,18 @@ def job_kwargs(job):
           "convert_unicode": job.get("convertUnicode", True)}
     if job["fw"] in ("attrs", "dataclasses"):
         kw["meta"] = job.get("meta", False)
+    if job.get("omitDefaults"):
+        # the library call as a user writes it: options left at their documented defaults are not passed at all
+        for k, default in (("max_literals", 10), ("post_init_converters", False), ("convert_unicode", True), ("meta", False)):
+            if k in kw and kw[k] == default and type(kw[k]) is type(default):
+                del kw[k]
     return kw
 
 
 def render_impl(reg, job):
     fn = compose_models if job.get("layout", "flat") == "nested" else compose_models_flat
     structure = fn(reg.models_map)
-    return generate_code(structure, GENERATORS[job["fw"]], class_generator_kwargs=job_kwargs(job),
+    return generate_code(structure, GENERATORS[job["fw"]], class_generator_kwargs=job_kwargs(job) or None,
                          preamble=job.get("preamble"))
 
 
